@@ -30,9 +30,9 @@ type sent struct {
 	Nonce  string `json:"nonce"`
 	Family string `json:"family"` // proxy | provider | passthrough | translated
 	Method string `json:"method"`
-	Path   string `json:"path"`     // client path
-	Expect string `json:"expect"`   // expected upstream path
-	Query  string `json:"query"`    // raw query
+	Path   string `json:"path"`   // client path
+	Expect string `json:"expect"` // expected upstream path
+	Query  string `json:"query"`  // raw query
 	Model  string `json:"model"`
 	Enc    string `json:"enc"` // cl | chunked | none
 	Size   string `json:"size_class"`
@@ -488,7 +488,6 @@ func doRequest(hc *http.Client, base string, s *sent, rng *rand.Rand) {
 func init() {
 	// keep full bodies only for translated requests (they are small); see runWorld
 }
-
 
 // failoverPhase: the preferred endpoint A breaks the connection (before answering, or in
 // the middle of the upload); the request must then reach B exactly as the client sent it.
